@@ -773,3 +773,88 @@ func genApiGates(repo, out string) {
 	b.WriteString("def apiHandlerEvents : List (String × String × List (String × String)) := [\n" + strings.Join(rows, ",\n") + "]\n\nend Hk.Gen\n")
 	must(os.WriteFile(filepath.Join(out, "ApiGates.lean"), []byte(b.String()), 0o644))
 }
+
+// genClassify reads the decision tree of PushDispatcher.classifyDelivery in source order: the conditions of its if
+// statements, the outcome written into the attempt record, the dead reasons assigned, every recordAttempt call and the kind
+// of lease action each return hands back.
+func genClassify(repo, out string) {
+	path := filepath.Join(repo, "internal/dispatcher/push.go")
+	fset, f := parseFile(path)
+	src, err := os.ReadFile(path)
+	check(err)
+	text := func(n ast.Node) string {
+		return strings.Join(strings.Fields(string(src[fset.Position(n.Pos()).Offset:fset.Position(n.End()).Offset])), " ")
+	}
+	var fd *ast.FuncDecl
+	for _, d := range f.Decls {
+		if x, ok := d.(*ast.FuncDecl); ok && x.Name.Name == "classifyDelivery" {
+			fd = x
+		}
+	}
+	if fd == nil {
+		check(fmt.Errorf("push.go: no classifyDelivery"))
+	}
+	type ev struct {
+		pos        int
+		kind, name string
+	}
+	var evs []ev
+	add := func(n ast.Node, k, v string) { evs = append(evs, ev{fset.Position(n.Pos()).Offset, k, v}) }
+	ast.Inspect(fd.Body, func(n ast.Node) bool {
+		switch x := n.(type) {
+		case *ast.FuncLit:
+			return false
+		case *ast.IfStmt:
+			add(x, "if", text(x.Cond))
+			if x.Else == nil {
+				evs = append(evs, ev{fset.Position(x.Body.End()).Offset, "endif", ""})
+			} else {
+				evs = append(evs, ev{fset.Position(x.Body.End()).Offset, "else", ""})
+				evs = append(evs, ev{fset.Position(x.Else.End()).Offset, "endif", ""})
+			}
+		case *ast.AssignStmt:
+			if len(x.Lhs) == 1 && len(x.Rhs) == 1 {
+				l := text(x.Lhs[0])
+				switch {
+				case l == "attempt.Outcome":
+					add(x, "outcome", text(x.Rhs[0]))
+				case l == "attempt.DeadReason":
+					add(x, "dead_reason", text(x.Rhs[0]))
+				case l == "reason":
+					add(x, "reason", text(x.Rhs[0]))
+				case l == "shouldRetry" || l == "delay":
+					add(x, l, text(x.Rhs[0]))
+				}
+			}
+		case *ast.CallExpr:
+			if se, ok := x.Fun.(*ast.SelectorExpr); ok && (se.Sel.Name == "recordAttempt" || se.Sel.Name == "Deliver") {
+				add(x, "call", se.Sel.Name)
+			}
+		case *ast.ReturnStmt:
+			kind := "?"
+			if len(x.Results) == 1 {
+				if cl, ok := x.Results[0].(*ast.CompositeLit); ok {
+					for _, el := range cl.Elts {
+						if kv, ok := el.(*ast.KeyValueExpr); ok && text(kv.Key) == "kind" {
+							kind = text(kv.Value)
+						}
+						if kv, ok := el.(*ast.KeyValueExpr); ok && (text(kv.Key) == "delay" || text(kv.Key) == "reason" || text(kv.Key) == "leaseID") {
+							kind += " " + text(kv.Key) + "=" + text(kv.Value)
+						}
+					}
+				}
+			}
+			add(x, "return", kind)
+		}
+		return true
+	})
+	sort.SliceStable(evs, func(i, j int) bool { return evs[i].pos < evs[j].pos })
+	var xs []string
+	for _, e := range evs {
+		xs = append(xs, fmt.Sprintf("  (%s, %s)", leanStr(e.kind), leanStr(e.name)))
+	}
+	var b strings.Builder
+	b.WriteString("/- GENERATED by /verif/extract — the decision tree of PushDispatcher.classifyDelivery (internal/dispatcher/push.go) in source order. do not edit. -/\nnamespace Hk.Gen\n\n")
+	b.WriteString("def classifyEvents : List (String × String) := [\n" + strings.Join(xs, ",\n") + "]\n\nend Hk.Gen\n")
+	must(os.WriteFile(filepath.Join(out, "ClassifyTree.lean"), []byte(b.String()), 0o644))
+}
